@@ -447,6 +447,11 @@ class POP3CommandHandler:
 
         msg_bytes = msg_as_bytes(msg)
         size = len(msg_bytes)
+
+        # Remember the size we announce: STAT and LIST have to keep saying
+        # the same even if the message is expunged by some IMAP client later.
+        #
+        self.msg_sizes.setdefault(n, size)
         msg_bytes = dot_stuff(msg_bytes)
         # NOTE: The message already ends with CRLF (msg_as_bytes() makes sure
         #       of that.) Only the terminating line is added, otherwise the
